@@ -26,7 +26,10 @@ size_t vg_cb(void *buf, size_t buf_len, void *user_data)
 size_t (*const vg_cb_ptr)(void *, size_t, void *) = vg_cb;
 
 /* BSR_OK: representation invariant of BitStreamReader */
-#define BSR_OK(r) ((r)->bits <= 32 && (r)->callback == vg_cb)
+#ifndef VG_CB
+#define VG_CB vg_cb
+#endif
+#define BSR_OK(r) ((r)->bits <= 32 && (r)->callback == VG_CB)
 
 /* Prefix-code tree invariant (DESIGN.md section 4).  LEN and ML must be compile-time constants. */
 #define VG_LEAF(t)  ((((unsigned)(t)) & (unsigned)TREE_NODE_LEAF) != 0)
